@@ -94,6 +94,8 @@ def gen_loaders():
     flag('xbLinesCleared', 'result.layers[0].lines.clear();' in lb)
     _need('if data.len() < o + XBIN_PALETTE_LENGTH' in lb and 'if data.len() < o + font_length * if extended_char_mode { 2 } else { 1 }' in lb,
           'xbinary: palette/font length guards not found (model follows the repaired loader)')
+    _need(re.search(r'if extended_char_mode && !has_custom_font \{\s*return Err\(', lb),
+          'xbinary: 512 character mode without a font block is no longer rejected (C05 repair; the model follows it)')
     rc = re.search(r'fn read_data_compressed\(.*?\n\}\n', s, re.S).group(0)
     ru = re.search(r'fn read_data_uncompressed\(.*?\n\}\n', s, re.S).group(0)
     _need('while o < bytes.len() && pos.y < result.get_height()' in rc and 'while o < bytes.len() && pos.y < result.get_height()' in ru,
@@ -150,6 +152,10 @@ def gen_loaders():
     _need('if pos.y >= (u16::MAX) as i32' in lb, 'tundra: jump bound changed')
     flag('tndLinesCleared', 'result.layers[0].lines.clear();' in lb)
     _need(lb.count('LoadingError::FileTooShort') == 5, 'tundra: operand length guards changed (model follows the repaired loader)')
+    m = re.search(r'let sauce_width = sauce_opt\.as_ref\(\)\.map_or\(0, \|sauce\| sauce\.buffer_size\.width\);\s*result\.set_sauce\(sauce_opt, true\);\s*'
+                  r'if sauce_width > (\d+) \{\s*result\.set_width\(sauce_width\);\s*result\.layers\[0\]\.set_width\(sauce_width\);\s*\}', lb)
+    _need(m, 'tundra: SAUCE widths above the set_sauce limit (C05 repair) not found')
+    d('tndWideAbove', int(m.group(1)))
 
     # ---------------------------------------------------------------- set_sauce clamp
     s = src('src/buffers.rs')
